@@ -489,6 +489,16 @@ def check(tier, seed):
     run.trusted("spec/typealgebra.valid_impl_type == IsValidImplementationFieldType / AreTypesCompatible of the specification")
     run.trusted("possible-type membership (Schema.is_possible_type) as an uninterpreted relation in the covariance proof")
     engine_p.run(run, 'C13')
+    # frame: validating writes nothing into the schema it judges (no memo on the schema or its elements, nothing marked) - the verdict is a function of the schema's
+    # current state, so it cannot depend on earlier validations or on resolvers that were replaced since (vf/aliascheck.py, one obligation per function of the module)
+    import inspect as _inspect
+    import py_gql.schema.validation as _val
+    from vf import aliascheck
+    _funcs = [("SchemaValidator.%s" % n_, f_) for n_, f_ in vars(_val.SchemaValidator).items() if _inspect.isfunction(f_)]
+    _funcs += [(n_, f_) for n_, f_ in vars(_val).items() if _inspect.isfunction(f_) and f_.__module__ == _val.__name__]
+    if len(_funcs) < 8:
+        raise MachineryDefect("schema validation module has only %d functions (moved?)" % len(_funcs))
+    aliascheck.account(run, aliascheck.obligations(_funcs, "validate", "validation leaves a trace on the schema, so a later verdict depends on the history"))
     return run.finish("other", "deductive: Schema.is_subtype == the specification's covariance relation for all type expressions (induction through its own "
                                "contract + reflexivity lemma by structural induction); path-wise: every mutator resets the memoised verdict; bounded: "
                                "rule-violation injection, order independence, names, re-validation histories",
